@@ -120,9 +120,37 @@ namespace cs
                 }
             }
         }
-        else if (profile == "C11")
+        else if (profile == "C11" || profile == "C20J")
         {
             p.set("mode", "joint");
+            for (std::size_t i = 0; i < len; ++i)
+            {
+                switch (r.below(10))
+                {
+                case 0:
+                    p.add("clone", {(long long)r.below(100), profile == "C20J" ? (long long)r.below(30) : 0});
+                    break;
+                case 1:
+                    p.add("mvj", {(long long)r.below(100)});
+                    break;
+                case 2:
+                    p.add("swapj", {(long long)r.below(100), (long long)r.below(100)});
+                    break;
+                case 3:
+                case 4:
+                    p.add("dropj", {(long long)r.below(100), (long long)r.below(2)});
+                    break;
+                case 5:
+                    p.add("jv", {(long long)r.below(12), (long long)r.below(40),
+                                 r.pick<long long>({-40, -1, 0, 0, 16, 17, 64, 200})});
+                    break;
+                default:
+                    p.add("mkj", {(long long)r.below(3), (long long)r.below(4), (long long)r.below(9),
+                                  (long long)r.below(9), (long long)r.below(5),
+                                  r.pick<long long>({-1000, -13, -1, 0, 0, 0, 1, 12, 100}),
+                                  (profile == "C20J" || r.chance(1, 4)) ? (long long)r.below(30) : 0});
+                }
+            }
         }
         else if (profile == "C10")
         {
